@@ -399,6 +399,10 @@ class TupleElement(ComputedValue[T]):
         return self.tuple.type_spec().value_type_specs()[self.index]
 
     def store_into(self, output: T) -> Expr:
+        if output.type_spec() != self.produced_type_spec():
+            raise TealInputError(
+                f"Cannot store a tuple element of type {self.produced_type_spec()} into {output.type_spec()}"
+            )
         return _index_tuple(
             self.tuple.type_spec().value_type_specs(),
             self.tuple.encode(),
